@@ -132,6 +132,7 @@ def malformed(rng, tier):
     out.append(("stun-attrs", [net.frame_udp(gens.PEER4, gens.SELF4, 5, 3478, p) for p in stun_bad_attrs()]))
     out.append(("long-text", long_text(rng, tier)))
     out.append(("stateful-flows", stateful_flows(rng, tier)))
+    out.append(("control-on-established", gens.control_on_established(rng, (0, 0))))
     return out
 
 
@@ -215,7 +216,7 @@ def generate(tier, rng):
     k = 0
     for tag, frames in malformed(rng, tier):
         sel = combos if tier == "thorough" else [combos[k % len(combos)], combos[(k * 7 + 5) % len(combos)], ("console", 4)]
-        if tag in ("long-text", "stateful-flows") and tier != "thorough":
+        if tag in ("long-text", "stateful-flows", "control-on-established") and tier != "thorough":
             sel = [("none", 5), ("none", 1), ("console", 1), ("logfmt", 2), ("console", 3), ("logfmt", 4)]
         k += 1
         for lg, lv in sel:
